@@ -33,6 +33,26 @@ PLAN = {
         "quick": [ph("input", 8, 400), ph("race", 2, 150, race=True)],
         "thorough": [ph("input", 16, 40000), ph("race", 8, 3000, race=True)],
     },
+    "C04": {
+        "level": "exploration",
+        "level_text": "Reference-model monitor over generated derivation programs: the name and tags of every reporter call / snapshot entry of the real scope tree are compared with a left-fold name model and a right-biased tag overlay (through the reference sanitizer when options are set); caller maps are compared before/after and vandalised afterwards",
+        "level_note": "trusts the reference name/tag/sanitizer models (mon/ref.go, cmd/vh/deriv.go); programs in which two distinct identities share a canonical key (delimiter characters, the C05 known finding) or two keys of one map sanitize to one key are skipped and counted",
+        "technique": "runtime reference-model monitor (differential oracle) over generated derivation programs",
+        "rule": "case = (root prefix/separator/tags, optional sanitizer options, program of 0..6 SubScope/Tagged steps over a small per-case string pool incl. empty, multi-byte, invalid UTF-8 and delimiter strings, metric names) run on plain, cached and test scopes with all four metric kinds, twice, with the caller's maps vandalised in between; distinct_nontrivial = distinct (root, program, metric, sanitizer) hashes of cases that were not skipped",
+        "assumptions": ["reference models mon/ref.go + cmd/vh/deriv.go"],
+        "quick": [ph("input", 8, 500)],
+        "thorough": [ph("input", 16, 25000)],
+    },
+    "C06": {
+        "level": "exploration",
+        "level_text": "Reference-model monitor: NewSanitizer(opts).Name/Key/Value are compared rune-wise with an independent reference over generated options and boundary-heavy strings (also from 16 goroutines sharing the pooled buffers, results re-verified at the end), and every string a sanitizing scope hands to a recording reporter - cardinality metrics included - is checked to consist of allowed runes or the replacement",
+        "level_note": "trusts the 20-line rune-wise reference sanitizer; options and strings are generated (range end-points +-1, invalid UTF-8, U+FFFD-allowing ranges), not exhaustive",
+        "technique": "runtime reference-model monitor over generated options/strings + delivered-string invariant on recording reporters (also under the race detector)",
+        "rule": "case = one generated SanitizeOptions x 120 boundary-heavy strings (sequential: reference equality, idempotence, determinism, rune count, identity on valid input; every fourth case also 16x60 concurrent calls with retained results re-verified) + one scope run (program depth 0..4, all metric kinds, cardinality metrics on, plain or cached); distinct_nontrivial = distinct option sets + distinct (options, program) pairs",
+        "assumptions": ["reference sanitizer mon/ref.go"],
+        "quick": [ph("input", 8, 150), ph("race", 2, 40, race=True)],
+        "thorough": [ph("input", 16, 8000), ph("race", 8, 800, race=True)],
+    },
 }
 
 NOT_APPLICABLE = {}
